@@ -10,6 +10,7 @@ import (
 	"context"
 	"encoding/json"
 	"fmt"
+	"hash/crc32"
 	"net/http"
 	"net/http/httptest"
 	"net/url"
@@ -180,6 +181,25 @@ func (c *concretiser) related() string {
 	return ""
 }
 
+// drawn builds a free segment from the documented character set (letters, digits and -_.~!$&'()*+,;=@), 1..6 characters.
+func (c *concretiser) drawn() string {
+	alphabet := []rune("abzAZ09-_.~!$&'()*+,;=@éß書")
+	for tries := 0; tries < 10; tries++ {
+		n := 1 + c.r.Intn(6)
+		rs := make([]rune, n)
+		for i := range rs {
+			rs[i] = alphabet[c.r.Intn(len(alphabet))]
+		}
+		s := string(rs)
+		if strings.Trim(s, ".") == "" || c.used[s] { // dot segments are in the pool already
+			continue
+		}
+		c.used[s] = true
+		return s
+	}
+	return ""
+}
+
 // seg maps an abstract segment to a concrete one, consistently within a case.
 func (c *concretiser) seg(a string) string {
 	if v, ok := c.m[a]; ok {
@@ -198,6 +218,11 @@ func (c *concretiser) seg(a string) string {
 		}
 	case "p", "q":
 		v = c.pick(freePool)
+		if c.r.Intn(3) == 0 { // a segment drawn character by character from everything larking documents as valid
+			if g := c.drawn(); g != "" {
+				v = g
+			}
+		}
 		if rel := c.related(); rel != "" && c.r.Intn(5) == 0 {
 			v = rel // a free value that extends (or is a prefix of) one of the case's literals
 		}
@@ -538,6 +563,13 @@ func (rm *rmux) lookupQ(kind, path, rawQuery string) (out ROut) {
 	req := httptest.NewRequest(kind, "http://verif.test/", nil)
 	req.URL = &url.URL{Scheme: "http", Host: "verif.test", Path: path, RawQuery: rawQuery}
 	req.RequestURI = path
+	// a third of the lookups offer a protocol upgrade that is not WebSocket (what `curl --http2` sends on a clear-text
+	// connection): the request is still the plain request of its verb
+	if h := crc32.ChecksumIEEE([]byte(kind + " " + path)); h%3 == 0 {
+		req.Header.Set("Connection", "Upgrade, HTTP2-Settings")
+		req.Header.Set("Upgrade", "h2c")
+		req.Header.Set("HTTP2-Settings", "AAMAAABkAAQAoAAAAAIAAAAA")
+	}
 	w := httptest.NewRecorder()
 	rm.mux.ServeHTTP(w, req)
 	rm.mu.Lock()
